@@ -327,12 +327,56 @@ def build(tier):
                            "discrete_action_dict": (lambda ex, st, l: {})},
                    requires=[], frame_fields=False,
                    ensures=["0 <= discrete_action_dict[agent]", "discrete_action_dict[agent] < NA"], replay="c14:ma_discrete")
+    # ---- bandits: the selection statements of NeuralUCB / NeuralTS.get_action (scores = any finite vector)
+    sel = region("action_values = action_values.cpu().numpy()", "if action_mask is None")
+    for cls, mod in (("NeuralUCB", "neural_ucb_bandit"), ("NeuralTS", "neural_ts_bandit")):
+        q = f"agilerl.algorithms.{mod}.{cls}.get_action"
+        P.contract(q, variant="masked", region=sel,
+                   params={"self": "opaque", "obs": "opaque", "action_mask": maskp, "action_values": (lambda ex, st, l: Vec(NA, Q, "scores"))},
+                   requires=[], frame_fields=False, ensures=["legal(action, action_mask)", "best_legal(action, Vec_q, action_mask)"], replay="c14:bandit")
+        P.contract(q, variant="unmasked", region=sel,
+                   params={"self": "opaque", "obs": "opaque", "action_mask": (lambda ex, st, l: None), "action_values": (lambda ex, st, l: Vec(NA, Q, "scores"))},
+                   requires=[], frame_fields=False, ensures=["0 <= action", "action < NA"], replay="c14:bandit")
+    for nm, bound in (("dqn", "DQN/CQN, 2-4 actions, every mask, epsilon 0/1, extreme draws"), ("box", "DDPG/TD3 heads and boxes"),
+                      ("ma_box", "MADDPG/MATD3, 3 per-dimension Box layouts, training on/off, noise 5.0"),
+                      ("ma_discrete", "MADDPG/MATD3, Discrete(2..4), every pair of masks, training on/off"),
+                      ("bandit", "NeuralUCB/NeuralTS, 2-4 arms, every mask"),
+                      ("pg_eval", "PPO (squash on/off) and IPPO in evaluation mode, 3 Box layouts, saturated policy outputs")):
+        P.native.append(dict(name=nm, adapter=f"c14:{nm}", bound=bound, payload={"mode": "search"}, thorough_only=True))
+    # ---- evaluation-mode clipping / rescaling of the policy-gradient learner (PPO.get_action tail; StochasticActor.scale_action inlined)
+    class BoxSpace:
+        def isinstance(self, ex, st, names):
+            return "Box" in names
+
+        def getattr(self, ex, st, name):
+            if name == "shape":
+                return (D,)
+            if name == "low":
+                return Vec(D, LO, "low")
+            if name == "high":
+                return Vec(D, HI, "high")
+            raise Undecided(f"space attribute {name}")
+
+    def ppo_self(ex, st, label):
+        o = Obj("model.PPO", label="self")
+        actor = Obj("agilerl.networks.actors.StochasticActor", {"action_low": Vec(D, LO, "low"), "action_high": Vec(D, HI, "high"),
+                                                                 "squash_output": z3.Bool("squash_output")}, label="actor")
+        o.fields.update(dict(action_space=BoxSpace(), training=z3.Bool("training_flag"), actor=actor))
+        return o
+    P.lib["numpy.clip"] = lambda ex, st, a, k: a[0].getattr(ex, st, "clip").model(ex, st, [a[1], a[2]], {})
+    P.specns.update(dict(tanh_range=lambda v: in_box(v, Vec(v.n, z3.K(z3.IntSort(), z3.RealVal(-1)), "-1"), Vec(v.n, z3.K(z3.IntSort(), z3.RealVal(1)), "1")),
+                         squash_output=z3.Bool("squash_output"), training_flag=z3.Bool("training_flag")))
+    P.contract("agilerl.algorithms.ppo.PPO.get_action", variant="eval-box",
+               region=region("if isinstance(self.action_space, spaces.Box) and self.action_space.shape == (1,)", "if not self.training and isinstance(self.action_space, spaces.Box)"),
+               params={"self": ppo_self, "obs": "opaque", "action_mask": "opaque", "action": (lambda ex, st, l: Vec(D, ACT, "policy_out"))},
+               requires=["implies(squash_output, tanh_range(action))"], frame_fields=False,
+               ensures=["implies(not training_flag, in_box(action, low, high))"], replay="c14:pg_eval")
     P.trusted += ["numpy.ma.array(values, mask) + numpy.argmax: masked entries are ignored when at least one entry is unmasked; numpy.where; "
                   "numpy.random.uniform in [0,1), numpy.random.randint(lo, hi) in [lo, hi), random.random() in [0,1)"]
     P.assumptions += ["network outputs are finite reals; masks are 0/1 with at least one legal action; low <= high component-wise",
                       "accelerator is None"]
     P.uncovered += ["with epsilon = 0 the policy branch is taken iff the uniform draw is > 0 (a draw of exactly 0.0 explores): "
                     "'exploration switched off' is read as 'the policy branch is taken'",
-                    "PPO/IPPO evaluation clipping, bandits; MADDPG/MATD3 env-defined actions and agent masks (native adapters / not covered)",
+                    "IPPO evaluation clipping (same two statements as PPO, native only); MADDPG/MATD3 env-defined actions and agent masks (native adapters / not covered)",
                     "batch shape of the returned array"]
     return P
